@@ -122,6 +122,9 @@ var c11Templates = []string{
 	`<p>{{ x + 1 }}</p>`, `<p>{{ x == 1 }}</p>`, `<p v-if="x > 1">a</p>`, `<p v-if="!x">a</p>`, `<template include="c.vuego" :p="x"></template>`, `<template :y="x">{{ y }}</template>`,
 	`<p>{{ x | json }}</p>`, `<p>{{ x | int }}</p>`, `<p>{{ x | string }}</p>`, `<p>{{ x | formatTime("2006") }}</p>`, `<p>{{ x | title }}</p>`, `<p>{{ x.secret }}</p>`, `<p>{{ x.1 }}</p>`, `<p v-for="i in x.Items">{{ i }}</p>`,
 	`<p :title="x.hidden">a</p>`, `<p v-if="x.secret">a</p>`, `<slot :p="x">f</slot>`, `<p v-once v-for="i in x">{{ i }}</p>`,
+	// values that become style declarations, class names, quoted literals
+	`<p :style="{content: x, color: x}">a</p>`, `<p style="a: b" :style="{content: x}" v-show="x">a</p>`, `<p :class="{a: x}" :class="x" class="k">a</p>`, `<p :style="x" style="x: y">a</p>`, `<p>{{ x | default(x) | upper | trim }}</p>`,
+	`<p :title="x + x">a</p>`, `<p v-for="c in x">{{ c }}</p>`,
 	// indexes outside the collection, negative ones included, in every position that resolves a path
 	`<p>{{ x[-1] }}|{{ x[-5] }}|{{ x[99] }}</p>`, `<p :title="x[-3]" :class="{k: x[-2]}">a</p>`, `<p v-for="i in x[-1]">{{ i }}</p>`, `<p v-if="x[-9].k">a</p><p v-else>b</p>`, `<p v-text="x[-1]"></p><p v-html="x[-4]"></p>`,
 	`<p>{{ x[-1][-1] }}{{ x.y[-1] }}{{ x | default(x[-7]) }}</p>`,
@@ -134,7 +137,9 @@ func c11Data() []any {
 	var np *S2
 	return []any{nil, true, 0, 1, int8(3), uint64(9), 2.5, "", "str", []any{}, []any{1, "a", nil}, []int{1, 2}, [2]int{3, 4}, map[string]any{}, map[string]any{"y": map[string]any{"z": 1}}, map[string]string{"y": "s"},
 		map[int]string{1: "x"}, map[string]int{"y": 1}, S1{Name: "n", secret: "s", hidden: 1, Items: []int{1}}, &S1{Name: "p"}, np, S2{X: 1}, []S2{{1, "a"}}, MyStr("m"), MyInt(2), func() {}, make(chan int), struct{ a int }{1}, time.Unix(0, 0), []byte("bytes"), [][]any{{1}},
-		S5{}, S5{Base: &Base{Created: "c", ID: 2}, Title: "t"}, &S5{}, []S5{{}, {Base: &Base{Created: "d"}}}, S4{Base: Base{Created: "e"}, Title: "t4"}, map[string]any{"n5": S5{}, "title": "T"}, []*S5{nil, {}}}
+		S5{}, S5{Base: &Base{Created: "c", ID: 2}, Title: "t"}, &S5{}, []S5{{}, {Base: &Base{Created: "d"}}}, S4{Base: Base{Created: "e"}, Title: "t4"}, map[string]any{"n5": S5{}, "title": "T"}, []*S5{nil, {}},
+		// strings that are nothing but the characters the attribute / style / class / pipe code strips, splits at or looks for
+		"\"", "'", " ' ", "\"\"", "''", ":", ";", ",", "{", "}", "{}", "{{", "}}", "|", " ", "\n", "-", ".", "[", "]", "(", ")", "a:", ":a", ";;", "\"a", "a'", "\\", "%", "%s", "\x00"}
 }
 
 func c11TypedEval(tpl string, x any) *Case {
